@@ -10,6 +10,8 @@ use std::pin::Pin;
 use std::task::{Context, Poll, Waker};
 
 pub struct WorkCapExceeded;
+/// Payload of a scripted child panic.
+pub struct ChildPanic(pub u32);
 
 // ------------------------------------------------------------------------------------------
 // invocation helpers (never called inside `with`)
@@ -36,6 +38,10 @@ fn poll_common(id: u32, addr: usize, w: &mut World) -> bool {
     let stale_credits = w.stale_credits;
     let c = &mut w.children[id as usize];
     let mut viol: Vec<(&'static str, &'static str, String)> = vec![];
+    if c.panicked {
+        // polling a future again after it panicked is the caller's business, not a violation
+        return false;
+    }
     if !in_poll {
         viol.push((
             "C12",
@@ -95,6 +101,7 @@ fn poll_common(id: u32, addr: usize, w: &mut World) -> bool {
 
 enum Act {
     Ignore,
+    Panic,
     Complete { wake: bool, fail: bool },
     Item { seq: u32, wake: bool },
     Pending { store: bool, selfwake: bool, cross: Option<(u32, Waker)> },
@@ -174,6 +181,18 @@ pub fn fut_poll(id: u32, addr: usize, cx: &mut Context<'_>) -> Poll<(Tok, bool)>
         }
         let poll_no = w.poll_no;
         let c = &mut w.children[id as usize];
+        if c.ready && c.beh.panics {
+            c.panicked = true;
+            c.completed_at = Some(poll_no);
+            w.no_longer_live(id);
+            w.child_panics += 1;
+            w.faults[FA_PANIC] += 1;
+            if let Some(wk) = w.children[id as usize].stored.take() {
+                w.wakers.push(HeldWaker { child: id, waker: wk });
+            }
+            w.log(0x19, id as u64);
+            return Act::Panic;
+        }
         if c.ready {
             c.completed_at = Some(poll_no);
             let (wake, fail) = (c.beh.wake_on_complete, c.beh.fail);
@@ -190,6 +209,10 @@ pub fn fut_poll(id: u32, addr: usize, cx: &mut Context<'_>) -> Poll<(Tok, bool)>
     });
     match act {
         Act::Ignore => Poll::Pending,
+        Act::Panic => {
+            F.with(|f| f.quiet_panic.set(true));
+            std::panic::panic_any(ChildPanic(id));
+        }
         Act::Complete { wake, fail } => {
             if wake {
                 with(|w| w.note_invocation(id));
@@ -261,6 +284,7 @@ pub fn src_poll(id: u32, addr: usize, cx: &mut Context<'_>) -> Poll<Option<Tok>>
     });
     match act {
         Act::Ignore => Poll::Pending,
+        Act::Panic => unreachable!(),
         Act::Item { seq, .. } => {
             let tok = with(|w| {
                 w.log(0x12, ((id as u64) << 32) | seq as u64);
@@ -333,9 +357,60 @@ pub fn child_drop(id: u32, addr: usize) {
 // ------------------------------------------------------------------------------------------
 // output modes
 
+/// Output without drop glue: the same fields as `Tok`, plain `Copy` data.
+#[derive(Clone, Copy)]
+pub struct RawTok {
+    pub magic: u64,
+    pub id: u32,
+    pub child: u32,
+    pub seq: u32,
+    pub kind: u32,
+}
+impl RawTok {
+    fn from_tok(t: Tok) -> RawTok {
+        let r = RawTok {
+            magic: t.magic,
+            id: t.id,
+            child: t.child,
+            seq: t.seq,
+            kind: t.kind,
+        };
+        std::mem::forget(t);
+        r
+    }
+    /// Back into the tracked form at the harness boundary (its drop is then the caller's drop).
+    pub fn into_tok(self) -> Tok {
+        Tok {
+            magic: self.magic,
+            id: self.id,
+            child: self.child,
+            seq: self.seq,
+            kind: self.kind,
+        }
+    }
+}
+
 pub trait OutMode: 'static {
     type Out;
     fn conv(t: Tok, fail: bool) -> Self::Out;
+}
+pub struct PlainRaw;
+pub struct TryRaw;
+impl OutMode for PlainRaw {
+    type Out = RawTok;
+    fn conv(t: Tok, _fail: bool) -> RawTok {
+        RawTok::from_tok(t)
+    }
+}
+impl OutMode for TryRaw {
+    type Out = Result<RawTok, RawTok>;
+    fn conv(t: Tok, fail: bool) -> Result<RawTok, RawTok> {
+        if fail {
+            Err(RawTok::from_tok(t))
+        } else {
+            Ok(RawTok::from_tok(t))
+        }
+    }
 }
 pub struct Plain;
 pub struct Try;
@@ -396,6 +471,32 @@ impl<M: OutMode> Future for SimFut<M> {
 impl<M> Drop for SimFut<M> {
     fn drop(&mut self) {
         child_drop(self.id, self as *const Self as usize);
+    }
+}
+
+/// A future type without drop glue (no `Drop` impl, only plain data): its drop is unobservable.
+pub struct NdFut<M> {
+    pub id: u32,
+    _m: PhantomData<fn() -> M>,
+    _pin: PhantomPinned,
+}
+impl<M> NdFut<M> {
+    pub fn new(id: u32) -> Self {
+        NdFut {
+            id,
+            _m: PhantomData,
+            _pin: PhantomPinned,
+        }
+    }
+}
+impl<M: OutMode> Future for NdFut<M> {
+    type Output = M::Out;
+    fn poll(self: Pin<&mut Self>, cx: &mut Context<'_>) -> Poll<M::Out> {
+        let addr = &*self as *const Self as usize;
+        match fut_poll(self.id, addr, cx) {
+            Poll::Ready((t, fail)) => Poll::Ready(M::conv(t, fail)),
+            Poll::Pending => Poll::Pending,
+        }
     }
 }
 
